@@ -22,7 +22,8 @@ class C13(Check):
     title = "Domain-less variables range over exactly the live instances of their type"
     rule = (
         "Hypothesis draws a history over the hierarchy A, B(A), C(A), D(B,C) (diamond), E(B), Z: create(cls), "
-        "drop(handle), gc, query(T) with a fresh an(entity(let(T, None))), declare(T) now and evaluate later, "
+        "drop(handle), gc, query(T) with a fresh an(entity(let(T, None))), declare(T) now and evaluate later (also "
+        "an(set_of([x, y], x.n >= 0)) whose second domain-less variable occurs in no condition), "
         "re-evaluate an earlier query object, SymbolGraph clear + re-creation. Oracle: a weak-reference census of "
         "every instance created since the last clear; after every evaluation the multiset of returned identities "
         "must equal the set of live census entries that are instances of T, each once. Non-trivial: the history "
@@ -59,6 +60,7 @@ class C13(Check):
             st.tuples(st.just("query"), st.sampled_from(NAMES)),
             st.tuples(st.just("query"), st.sampled_from(["A", "A", "B", "C"])),
             st.tuples(st.just("declare"), st.sampled_from(NAMES)),
+            st.tuples(st.just("declare_pair"), st.sampled_from(NAMES), st.sampled_from(NAMES)),
             st.tuples(st.just("evaluate_declared"), st.integers(0, 5)),
             st.tuples(st.just("clear")),
         ]
@@ -98,6 +100,22 @@ class C13(Check):
             return Counter(id(r()) for r, c in census if r() is not None and c in S.SUBCLASSES[T])
 
         def check(q, T, what, n):
+            if isinstance(T, tuple):
+                # an(set_of([x, y], x.n >= 0)): y is selected, domain-less and mentioned by no condition
+                q, x, y = q
+                res = list(q.evaluate())
+                got = Counter((id(r[x]), id(r[y])) for r in res)
+                del res
+                want = Counter((a, b) for a in expected(T[0]) for b in expected(T[1]))
+                if got != want:
+                    names = {id(r()): f"{c}" for r, c in census if r() is not None}
+                    lab = lambda cnt: sorted((names.get(a, "?"), names.get(b, "?"), v) for (a, b), v in cnt.items())[:6]
+                    missing, extra = want - got, got - want
+                    kind = "missing_live_instance" if missing and not extra else (
+                        "dead_or_foreign_instance_returned" if extra and not missing else "wrong_instances")
+                    return fail(kind, f"op {n} {what}{T}: missing {lab(missing)} extra {lab(extra)}",
+                                classes=sorted(classes), nontrivial=nontrivial_query, bucket=what + "_pair")
+                return None
             res = list(q.evaluate())
             got = Counter(id(x) for x in res)
             del res
@@ -140,6 +158,13 @@ class C13(Check):
                 elif k == "declare":
                     declared.append((an(entity(let(S.CLASSES[op[1]], None))), op[1]))
                     classes.add("declared_before_evaluation")
+                elif k == "declare_pair":
+                    from krrood.entity_query_language.entity import set_of
+
+                    x, y = let(S.CLASSES[op[1]], None), let(S.CLASSES[op[2]], None)
+                    declared.append(((an(set_of([x, y], x.n >= 0)), x, y), (op[1], op[2])))
+                    classes.add("selected_variable_outside_the_condition")
+                    del x, y
                 elif k == "evaluate_declared" and declared:
                     q, T = declared.pop(op[1] % len(declared))
                     nontrivial_query = nontrivial_query or (dropped_then_gc and len(classes) >= 2)
